@@ -174,7 +174,7 @@ func runConc(c *core.Ctx) core.Result {
 		plan.Progs = append(plan.Progs, p.Name)
 		plan.ClearBefore = append(plan.ClearBefore, plan.Mode == "strict" && i > 0 && rng.Chance(1, 5) && countTrue(plan.ClearBefore) < 5)
 	}
-	plan.YieldMask = int64(1)<<uint(rng.Range(4, 9)) - 1
+	plan.YieldMask = int64(1)<<uint(rng.Range(6, 11)) - 1
 	strict := plan.Mode == "strict"
 
 	r := gj.NewRuntime()
